@@ -1129,10 +1129,16 @@ impl World {
         }
         let r1: &str = x.as_ref();
         let r2: &[u8] = x.as_ref();
-        let r3: &std::ffi::OsStr = x.as_ref();
+        #[cfg(feature = "ls-std")]
+        {
+            let r3: &std::ffi::OsStr = x.as_ref();
+            if r3 != std::ffi::OsStr::new(mx.as_str()) {
+                bad("C17.as_ref", format!("AsRef<OsStr> view of {mx:?} differs from the text"));
+            }
+        }
         let r4: &str = x;
         let r5: &str = std::borrow::Borrow::borrow(x);
-        if r1 != mx.as_str() || r2 != mx.as_bytes() || r3 != std::ffi::OsStr::new(mx.as_str()) || r4 != mx.as_str() || r5 != mx.as_str() {
+        if r1 != mx.as_str() || r2 != mx.as_bytes() || r4 != mx.as_str() || r5 != mx.as_str() {
             bad("C17.as_ref", format!("AsRef/Deref/Borrow views of {mx:?} differ from the text"));
         }
         let back: String = String::from(x);
